@@ -136,14 +136,19 @@ class JobArrayer:
         if not self.min_array_size:
             return
 
-        if self._monitor_thread.is_alive():
-            return
+        # Lock, otherwise two concurrent add_job() callers can both find no live monitor and
+        # start two monitor threads (or start the same Thread object twice).
+        with self._lock:
+            if self._monitor_thread.is_alive():
+                return
 
-        # Initialize a new Thread here in case a previous one has completed,
-        # since Threads can't be started more than once.
-        self._exit_flag.clear()
-        self._monitor_thread = threading.Thread(target=self._monitor_stale_jobs, daemon=True)
-        self._monitor_thread.start()
+            # Initialize a new Thread here in case a previous one has completed,
+            # since Threads can't be started more than once.
+            self._exit_flag.clear()
+            self._monitor_thread = threading.Thread(
+                target=self._monitor_stale_jobs, daemon=True
+            )
+            self._monitor_thread.start()
 
     def stop(self) -> None:
         self._exit_flag.set()
@@ -170,11 +175,14 @@ class JobArrayer:
     def get_stale_descrs(self) -> list[JobDescription]:
         """Submits jobs that haven't been touched in a while"""
         currtime = time.time()
-        stales = [
-            descr
-            for descr in self.pending
-            if (currtime - self.pending_timestamps[descr] > self.stale_time)
-        ]
+        # Lock, otherwise a concurrent add_job() can change the size of `pending` while it is
+        # being iterated, or be caught between inserting into `pending` and `pending_timestamps`.
+        with self._lock:
+            stales = [
+                descr
+                for descr in self.pending
+                if (currtime - self.pending_timestamps[descr] > self.stale_time)
+            ]
         return stales
 
     def submit_pending_jobs(self, descr: JobDescription) -> None:
@@ -200,4 +208,6 @@ class JobArrayer:
         else:
             self._submit_jobs(jobs)
 
-        self.num_pending -= len(jobs)
+        # Lock, otherwise the read-modify-write can lose a concurrent increment by add_job().
+        with self._lock:
+            self.num_pending -= len(jobs)
